@@ -103,7 +103,9 @@ for ent, fn, props, what in (
     ("h_find_available_user", "find_available_user", {"C04": "all", "C03": "all", "C05": "safety"}, "find_available_user never takes a slot active in the last 60 s, resets authentication on the slot it takes, leaves the others unchanged"),
     ("h_all_users_waiting", "all_users_waiting_to_send", {"C05": "safety"}, "all_users_waiting_to_send: safety"),
     ("h_user_setters", "user_switch_codec", {"C04": "all", "C05": "safety"}, "user_switch_codec/user_set_conn_type: range-checked userid, only the named slot")):
-    G(name=ent[2:], harness="h_user.c", entry=ent, enforce=[fn], style="legacy", unwind=33, shrink="user.c", cbmc_flags=["--no-array-field-sensitivity"], props=props, min_obl=5, cost=20, timeout=600, what=what)
+    # --nondet-static: function-local statics of user.c (none today) start arbitrary, so a result that depends on hidden
+    # state carried over from earlier calls cannot hide behind the initial state
+    G(name=ent[2:], harness="h_user.c", entry=ent, enforce=[fn], style="legacy", unwind=33, shrink="user.c", cbmc_flags=["--no-array-field-sensitivity", "--nondet-static"], props=props, min_obl=5, cost=20, timeout=600, what=what)
 
 SRV_FLAGS = ["--no-array-field-sensitivity"]
 SRV_SHRINK = dict(shrink="iodined.c", shrink_set="payload64", rss_gb=4)
@@ -249,6 +251,8 @@ for ent, fns, props, what in (
     G(name="cli_" + ent[2:], entry=ent, defs=["STUB_HANDSHAKE=1"], enforce=fns, props=props, what=what, **HS)
 G(name="cli_tunnel_tun", entry="h_tunnel_tun", defs=["STUB_TUNNEL=1"], enforce=["tunnel_tun", "send_raw_data", "send_raw"], props={"C01": "all", "C06": "safety"}, min_obl=20, cost=60, **CLI,
   what="client tunnel_tun: while an upstream packet is in flight a packet read to drain the tun device leaves it untouched (position AND every data byte, ghost index) and sends nothing; otherwise exactly the bytes read are compressed, the packet gets zlib's length, fragment 0, offset 0, next sequence number, and its first fragment (DNS) or one raw frame is sent")
+G(name="common_recent_seqno", harness="h_common.c", entry="h_recent_seqno", enforce=["recent_seqno"], style="legacy", unwind=6, props={"C01": "all", "C05": "safety", "C06": "safety"}, min_obl=1, cost=2,
+  what="recent_seqno for all 8 x 8 three-bit sequence numbers: 1 exactly for the current number and the three before it modulo 8 (the window that makes late copies of old fragments count as old)")
 
 LEVELS = {}
 TRUSTED_BASE = ["CBMC 6.11.0 (goto-cc front end, goto-instrument --dfcc contract instrumentation, symex)",
